@@ -25,7 +25,7 @@ possible object type and whose resolvers — for every field of that type and al
 return conforming values; no raising resolver. -/
 def Conforms (ops : Ops) (s : Schema) : TypeRef → RVal → Prop
   | t, .null => t.nonNull = false
-  | _, .raise _ => False
+  | _, .raise _ _ => False
   | t, .leaf l =>
     match t with
     | .named n _ => s.kind n = .leaf ∧ ∃ j, ops.serialize s n l = some j ∧ j ≠ .null
@@ -112,7 +112,7 @@ def shapeOk (cx : Spec.Ctx) (t : TypeRef) (fields : List FieldNode) : RVal → J
     !t.nonNull && (match j with
       | .null => true
       | _ => false)
-  | .raise _, _ => false
+  | .raise _ _, _ => false
   | .leaf _, j =>
     match t with
     | .named n _ => cx.schema.kind n == .leaf && leafShape cx.schema n j
